@@ -30,10 +30,11 @@ COMMON_ASSUME = [
 PROPS = {}
 
 PROPS["C01"] = {
-    "legs": [rapid("hist", "pstree", "TestC01Hist", 8, 4000, 16, 300000)],
+    "legs": [rapid("hist", "pstree", "TestC01Hist", 8, 4000, 16, 1500000)],
     "rule": "rapid draws a history as data (beta in {0,1,50,250,500,999,1000} or uniform 0..1000; unsorted, duplicated "
             "initial keys for New; <=60 ops among Add/Replace/Remove/Get/Clear/Clone/switch/Inorder(stop)/InorderAfter "
-            "(present, absent, below min, above max) plus macro ops: ascending/descending/zig-zag runs, drains "
+            "(present, absent, below min, above max) plus macro ops: ascending/descending/zig-zag runs (inserting through "
+            "Add, through Replace, or alternating), drains "
             "(min/max/median/scattered, to a fraction or to empty), two-child-node removal followed by successor "
             "lookup); the interpreter compares every result, Len/IsEmpty/Min/Max after every single operation and the "
             "full Inorder after every operation while Len<=64 (every 8th above) with a sorted reference set keyed on K "
@@ -44,10 +45,10 @@ PROPS["C01"] = {
 }
 
 PROPS["C02"] = {
-    "legs": [rapid("bound", "pstree", "TestC02Bound", 8, 1500, 16, 40000),
+    "legs": [rapid("bound", "pstree", "TestC02Bound", 8, 1500, 16, 400000),
              plain("newheight", "pstree", "TestC02NewHeights")],
     "rule": "leg bound: histories as in C01 plus an adaptive adversary op that inserts a fresh key directly beneath a "
-            "deepest leaf (located by a cursor walk); beta in [0,999]; trees up to 2000 nodes; after EVERY single "
+            "deepest leaf (located by a cursor walk; through Add or Replace); beta in [0,999]; trees up to 2000 nodes; after EVERY single "
             "operation (each element of a run) the height is measured through Root/Left/Right/Up and "
             "2000^(d-1) <= P*(1000+beta)^(d-1) is checked in exact big-integer arithmetic (P = max Len since "
             "creation/Clear/last empty), and Get comparisons are counted with a counting comparator. NON-TRIVIAL iff "
@@ -59,7 +60,7 @@ PROPS["C02"] = {
 }
 
 PROPS["C03"] = {
-    "legs": [rapid("cursor", "pstree", "TestC03Cursor", 4, 1000, 16, 40000)],
+    "legs": [rapid("cursor", "pstree", "TestC03Cursor", 4, 1000, 16, 150000)],
     "rule": "a tree is built by a C01-style history (beta biased to 500/900/1000 so that skewed shapes occur; runs and "
             "adversarial deep inserts), then: (a) Cursor(key) for every key and for absent keys below/above/inside the "
             "range; (b) a structural recursion from Root using only Clone/Left/Right that reconstructs the shape and "
@@ -75,8 +76,8 @@ PROPS["C03"] = {
 }
 
 PROPS["C04"] = {
-    "legs": [rapid("hist", "pstree", "TestC04Hist", 4, 4000, 16, 250000),
-             rapid("float", "pstree", "TestC04Float", 2, 2000, 4, 100000)],
+    "legs": [rapid("hist", "pstree", "TestC04Hist", 4, 4000, 16, 800000),
+             rapid("float", "pstree", "TestC04Float", 2, 2000, 8, 300000)],
     "rule": "histories of <=50(+9) ops on two copies of one omap.Map value (ops alternate between the copies): "
             "Set/Delete/Clear/Get/GetOK on present, absent-below, absent-above and absent-inside keys; iterator "
             "programmes First/Last/Seek(k)/Iter.Seek(k) followed by Next/Prev walks, the documented "
@@ -134,7 +135,7 @@ PROPS["C06"] = {
 }
 
 PROPS["C07"] = {
-    "legs": [rapid("hist", "pqueue", "TestC07Hist", 4, 4000, 16, 50000),
+    "legs": [rapid("hist", "pqueue", "TestC07Hist", 4, 4000, 16, 120000),
              plain("exh", "pqueue", "TestC07Exh", solo=True)],
     "rule": "leg hist: rapid draws a history as data: constructor in {zero value, New(), NewSize(n), n in 0..17}; <=76 random "
             "ops among Add, Push, Pop, PopLast, Clear, Front, Peek(i in [-Len-2, Len+2]), Each(stop after j), Slice, Len and "
@@ -199,7 +200,7 @@ PROPS["C10"] = {
 }
 
 PROPS["C08"] = {
-    "legs": [rapid("hist", "pcache", "TestC08Hist", 4, 6000, 16, 500000)],
+    "legs": [rapid("hist", "pcache", "TestC08Hist", 4, 6000, 16, 2000000)],
     "rule": "limit in 1..12 (biased to >=6); size function absent (unit) or value-dependent (0..4, sometimes exactly the "
             "limit or above it); keys in 0..limit+3 so that evictions happen; unique values; <=60(+limit+6) ops among Put, "
             "putNew (Put of a key that is absent), Get, Has, Remove, Clear, with a spliced fill / touch-a-middle-aged-key / "
@@ -253,7 +254,7 @@ PROPS["C09"] = {
 
 PROPS["C13"] = {
     "legs": [plain("exh", "pmdiff", "TestC13Exhaustive", solo=True),
-             rapid("rand", "pmdiff", "TestC13Rand", 4, 3000, 16, 200000)],
+             rapid("rand", "pmdiff", "TestC13Rand", 4, 3000, 16, 600000)],
     "rule": "leg exh: every pair (Left, Right) of line sequences over {a,b,c} with both lengths <=5 (quick) / <=6 "
             "(thorough), each with every context size n in {0,1,2,3,4,50}; leg rand: pairs of up to ~45 lines derived from "
             "a common base by per-line delete/replace/insert mutations over alphabets of 2-5 lines (so lines repeat), n "
@@ -273,7 +274,7 @@ PROPS["C13"] = {
 
 PROPS["C18"] = {
     "legs": [plain("exh", "pmapset", "TestC18Exhaustive"),
-             rapid("hist", "pmapset", "TestC18Hist", 4, 25000, 16, 500000)],
+             rapid("hist", "pmapset", "TestC18Hist", 4, 25000, 16, 2000000)],
     "rule": "A case is a history over four set variables (JSON: initial values as element lists, null = the nil set, "
             "[] = empty non-nil; ops with plain integer arguments).  One interpreter serves both legs: the reference "
             "of every variable is a strictly ascending slice of ints (never a Go map); after EVERY step every "
@@ -310,7 +311,7 @@ PROPS["C18"] = {
 }
 
 PROPS["C19"] = {
-    "legs": [rapid("det", "pdistinct", "TestC19Det", 4, 20000, 16, 300000),
+    "legs": [rapid("det", "pdistinct", "TestC19Det", 4, 20000, 16, 1200000),
              plain("stat", "pdistinct", "TestC19Stat", solo=True, shards={"quick": 1, "thorough": 4}),
              plain("reuse", "pdistinct", "TestC19Reuse")],
     "rule": "leg reuse: one counter is run 24 times on the same stream (D distinct values, D > 20*size and not of the form Len*2^k) with Reset between the runs; if all 24 runs return the same Count the mean over repeated runs is stuck away from D (runs through Reset are not independent) - for independent runs and sizes >= 16 the probability of that is below 1e-15; non-trivial = the runs gave at least two different counts. The counter seeds itself from crypto/rand, so no run is bit-reproducible; the deterministic clauses hold "
@@ -358,7 +359,7 @@ PROPS["C20"] = {
     "legs": [plain("mbits", "pbytes", "TestC20Bits", solo=True),
              plain("trunc", "pbytes", "TestC20Trunc"),
              plain("natural", "pbytes", "TestC20Natural", solo=True),
-             rapid("naturalrand", "pbytes", "TestC20NaturalRand", 4, 50000, 16, 1000000)],
+             rapid("naturalrand", "pbytes", "TestC20NaturalRand", 4, 50000, 16, 4000000)],
     "rule": "leg mbits (exhaustive enumeration, case = data bytes in hex + address alignment): for every length "
             "0..300 (thorough 0..1000) and every alignment 0..7 of the first byte's ADDRESS (sub-slice of one backing "
             "array with >= 8 guard bytes on each side, the slice keeps the spare capacity so a stray write lands in a "
@@ -412,7 +413,8 @@ PROPS["C14"] = {
             "with lengths <=4 (quick) / <=5 (thorough) x n in {-1,0,1,2,3}, alternately without and with a FileInfo; leg "
             "rand: pairs derived from a common base by line mutations over 2-5 lines drawn from a hostile alphabet "
             "('', '-x', '+y', ' z', '<', '> b', '---', '--- q', '+++ q', '@@ -1 +1 @@', 'diff x', '***', '1a2', '\\', "
-            "...), FileInfo absent or with random names (no tab/newline) and timestamps at microsecond precision with "
+            "... and lines without a newline but with bytes a text-mode reader might eat: 'b\\r', '\\r', tab/space/form-feed "
+            "at either end, NUL, invalid UTF-8, U+2028, U+0085, U+00A0), FileInfo absent or with random names (no tab/newline) and timestamps at microsecond precision with "
             "minute-granular zone offsets, or zero; leg git: 1-4 such diffs wrapped in 'diff --git'/mode/index/---/+++ "
             "sections, optionally with function context after the second @@. O1 (round trip): Normal->Read yields one "
             "chunk per change command at the expected ranges, Unified->ReadUnified / ReadGitPatch yield the same ranges "
@@ -435,7 +437,7 @@ PROPS["C14"] = {
 
 PROPS["C15"] = {
     "legs": [plain("exh", "pshell", "TestC15Exhaustive", solo=True),
-             rapid("lists", "pshell", "TestC15Lists", 4, 3000, 16, 200000),
+             rapid("lists", "pshell", "TestC15Lists", 4, 3000, 16, 600000),
              plain("pool", "pshell", "TestC15Pool"),
              plain("shells", "pshell", "TestC15Shells", solo=True),
              fuzz("fuzz", "pshell", "FuzzQuoteSplit", 60)],
@@ -487,7 +489,7 @@ PROPS["C16"] = {
 PROPS["C11"] = {
     "legs": [plain("exh", "pslice", "TestC11Exhaustive", solo=True),
              plain("alias", "pslice", "TestC11Alias", solo=True),
-             rapid("rand", "pslice", "TestC11Rand", 4, 10000, 16, 400000)],
+             rapid("rand", "pslice", "TestC11Rand", 4, 10000, 16, 120000)],
     "rule": "leg alias: lhs and rhs are two windows buf[i:j], buf[k:l] of ONE backing array (a slice diffed against its own prefix, suffix or appended version): every buffer over {0,1,2} of length <=6 (quick) / <=8 (thorough) x every ordered pair of windows of which one reaches the end; one rand case in six is built the same way. A case is one input pair {lhs, rhs} of slice.EditScript (integer elements). leg exh enumerates, in order of "
             "total length and spread over all cores, EVERY pair over {0,1,2} with both lengths <= 6 and every pair over "
             "{0,1} with both lengths <= 9 (quick; 2.2 M pairs) / {0,1,2} <= 8, {0,1} <= 11 and every pair over {0,1,2,3} "
@@ -514,6 +516,7 @@ PROPS["C12"] = {
     "legs": [plain("lisexh", "pslice", "TestC12LISExhaustive", solo=True),
              plain("lcsexh", "pslice", "TestC12LCSExhaustive", solo=True),
              rapid("lisrand", "pslice", "TestC12LISRand", 4, 10000, 16, 500000),
+             rapid("lisbig", "pslice", "TestC12LISBig", 4, 40, 16, 1500),
              rapid("lcsrand", "pslice", "TestC12LCSRand", 4, 5000, 16, 150000)],
     "rule": "LIS/LNDS legs: a case is {vs, cmp} with cmp in nat (slice.LIS / slice.LNDS), rev (LISFunc / LNDSFunc with the "
             "reversed order) or half (…Func comparing v>>1, so distinct elements compare equal and the identity of the "
@@ -522,7 +525,10 @@ PROPS["C12"] = {
             "each with the three comparisons (quick; 0.54 M cases) / {0,1} to 18, {0,1,2} to 13, {0..3} to 10, {0..4} to "
             "8 (thorough; 13.8 M), in length order; sequences already contained in a smaller-alphabet scope are skipped. "
             "leg lisrand (rapid): length <= 200 over 1-6 distinct values (2-12 for half): uniform, runs of equals, "
-            "ascending/descending plateaus with noise, or a wider value range. Oracle: the result is a subsequence of "
+            "ascending/descending plateaus with noise, or a wider value range. leg lisbig (rapid): 30 000 - 280 000 "
+            "elements given as 1-4 arithmetic runs {start, step, len} with lengths around 2^15, 2^16, 2^17 and later runs "
+            "starting inside the range of the earlier ones (the optimum itself exceeds 2^15 / 2^16 elements; reference "
+            "= patience sorting, cross-checked against the quadratic DP on every case of <= 1500 elements). Oracle: the result is a subsequence of "
             "the input (greedy embedding by ==), strictly increasing resp. non-decreasing under the comparison used, its "
             "length equals an independent O(n^2) DP optimum, and the input equals a copy taken before the call. "
             "NON-TRIVIAL iff len(LNDS) > len(LIS) under the comparison used (a run of equivalent elements matters for "
@@ -535,7 +541,9 @@ PROPS["C12"] = {
             "with long runs, crossings, rotations, independent, identical), one third with fold and random case bits. "
             "Oracle: the result embeds (greedy, under the equality in use) in as and in bs, each of its elements occurs "
             "literally in one of the inputs, its length equals the textbook O(mn) optimum computed on the equivalence "
-            "classes, both inputs equal their copies afterwards. NON-TRIVIAL iff the pair has >= 2 distinct longest "
+            "classes, both inputs equal their copies afterwards - the two arguments are either separate slices or adjacent windows "
+            "(as|bs, bs|as, as|gap|bs) of one buffer, so that a result built in an argument's spare capacity shows up "
+            "as a modified input. NON-TRIVIAL iff the pair has >= 2 distinct longest "
             "common subsequences (as sequences of classes). Distinct = distinct by construction (exhaustive legs) / "
             "distinct canonical JSON of the case (rapid legs, 64-bit hash, unioned over shards).",
     "assumptions": COMMON_ASSUME + ["comparison functions are total preorders on ints (natural, reversed, v>>1); the "
@@ -544,7 +552,7 @@ PROPS["C12"] = {
 
 PROPS["C17"] = {
     "legs": [plain("exh", "pslice", "TestC17Exhaustive", solo=True),
-             rapid("rand", "pslice", "TestC17Rand", 4, 10000, 16, 500000)],
+             rapid("rand", "pslice", "TestC17Rand", 4, 10000, 16, 4000000)],
     "rule": "A case is one call {fn, n, k, spare, keep, rows}: the slice has n distinct elements 100+i, `spare` filler "
             "elements of spare capacity behind it and a sentinel after its capacity; k is the numeric argument. leg exh "
             "enumerates, by slice length: Partition for EVERY keep pattern of n <= 12 (quick) / 18 (thorough) elements "
